@@ -152,7 +152,8 @@ _TERMINALS = ["log_integral", "evaluate_ln", "integrate_x", "integrate_xx", "int
               "integrate_cubic_inner", "integrate_cubic_outer", "integrate_xAxx", "integrate_xbxx", "integrate_quartic_inner",
               "integrate_quartic_outer", "log_factor", "entropy_kl"]
 _PIPES = ["joint_eval", "marginal_eval", "bayes_posterior", "set_y_evidence", "cond_entropies", "log_conditional",
-          "condition_on_dims", "kalman_scan", "lrbf_marginal", "lsem_log_conditional_y", "het_moments", "het_bound", "truncated", "nn_control"]
+          "condition_on_dims", "kalman_scan", "lrbf_marginal", "lsem_log_conditional_y", "truncated", "nn_control"] + \
+         [f"{p_}:{l_}" for p_ in ("het_moments", "het_bound") for l_ in ("exp", "cosh", "heaviside", "relu")]
 
 
 def _pool_named(names):
@@ -215,6 +216,9 @@ def _strategy_cond(shapes):
     @st.composite
     def s(draw):
         D, R, N, pipe = draw(st.sampled_from(shapes))
+        link = None
+        if ":" in pipe:
+            pipe, link = pipe.split(":")
         kind = draw(st.sampled_from(["full", "diag", "identity", "identity_diag"]))
         Dx = min(D, 2) if pipe in ("lrbf_marginal", "lsem_log_conditional_y", "het_bound", "het_moments") else D
         Dy = Dx if kind.startswith("identity") else draw(st.integers(1, 2))
@@ -222,7 +226,7 @@ def _strategy_cond(shapes):
             kind = "full"
             Dy = draw(st.integers(1, 2))
         case = {"family": "cond", "pipe": pipe, "kind": kind, "Dx": Dx, "Dy": Dy, "N": N,
-                "link": draw(st.sampled_from(gen.HET_KINDS)), "dims": [Dx + Dy - 1] if Dx + Dy > 1 else [0]}
+                "link": link or draw(st.sampled_from(gen.HET_KINDS)), "dims": [Dx + Dy - 1] if Dx + Dy > 1 else [0]}
         if pipe == "condition_on_dims" and Dx + Dy < 2:
             case["pipe"] = "joint_eval"
         shapes_ = pipes.cond_param_shapes(case["pipe"], Dx, Dy, kind)
@@ -344,5 +348,5 @@ SUBS = [
     Sub("chains", _pool_named(_TERMINALS), _strategy_chain, _run_p, _nontrivial_p, _labels_p,
         examples={"quick": 6, "thorough": 50}, shards={"quick": 15, "thorough": 30}, rule=">=2 ops and non-zero finite-difference response"),
     Sub("cond_pipes", _pool_named(_PIPES), _strategy_cond, _run_p, _nontrivial_p, _labels_p,
-        examples={"quick": 6, "thorough": 50}, shards={"quick": 14, "thorough": 28}, rule="non-zero finite-difference response"),
+        examples={"quick": 5, "thorough": 40}, shards={"quick": 20, "thorough": 40}, rule="non-zero finite-difference response"),
 ]
